@@ -104,6 +104,12 @@ type run struct {
 	tmp          []string
 	gotOK        bool
 	bulk         []bulk
+
+	// bookkeeping for SetAppendedSeq targets (see resetTarget)
+	maxTouched   int64 // highest index slot any Put of this case may have written
+	epochLo      int64 // first sequence appended since the cursor last moved backwards
+	unsynced     bool  // a reset happened and neither a Put nor NewQueue since
+	idxMaybeDead bool  // GC ran in that state: the index page the queue holds may be gone
 }
 
 func (r *run) cleanup() {
@@ -152,6 +158,7 @@ func (r *run) opNew() {
 	r.want = map[int64][]byte{}
 	r.ths = map[int]*thr{}
 	r.everReversed, r.restartAfter, r.gcAfterRev = false, "", false
+	r.maxTouched, r.epochLo, r.unsynced, r.idxMaybeDead, r.bulk = 0, 0, false, false, nil
 	if err := r.open(dir); err != nil {
 		r.c.Op("new", "err open")
 		return
@@ -204,6 +211,7 @@ func (r *run) opPut(m msg) {
 			r.c.Fail("seq-not-dense", fmt.Sprintf("Put returned nil, appended went %d -> %d", before, seq))
 		}
 		r.want[seq] = m.data
+		r.touched(true)
 		r.c.Branch("put-ok")
 		if len(m.data) == 0 {
 			r.c.Branch("put-empty")
@@ -290,6 +298,9 @@ func (r *run) opGC() {
 	if r.everReversed {
 		r.gcAfterRev = true
 	}
+	if r.unsynced {
+		r.idxMaybeDead = true
+	}
 	r.check("gc")
 }
 
@@ -310,6 +321,7 @@ func (r *run) opReopen() {
 		r.c.Fail("appended-moved-by-reopen", fmt.Sprintf("appended %d before close, %d after NewQueue", before, a))
 	}
 	r.c.Branch("reopen")
+	r.rewound()
 	if r.everReversed {
 		r.restartAfter = "reopen"
 	}
@@ -359,6 +371,10 @@ func (r *run) opCrashPut(k int, m msg) {
 	default:
 		r.c.Branch("crash-after-all-stores")
 	}
+	if before+1 > r.maxTouched {
+		r.maxTouched = before + 1
+	}
+	r.rewound()
 	if a := r.q.AppendedSeq(); a != before && a != before+1 {
 		r.c.Fail("appended-jumped-over-crash", fmt.Sprintf("appended %d before the crash, %d after NewQueue on the image", before, a))
 	}
@@ -373,12 +389,21 @@ func (r *run) check(after string) {
 	if r.q == nil {
 		return
 	}
+	r.touched(false)
 	ack := r.q.AcknowledgedSeq()
 	seqs := make([]int64, 0, len(r.want))
 	for s := range r.want {
 		seqs = append(seqs, s)
 	}
 	sort.Slice(seqs, func(i, j int) bool { return seqs[i] < seqs[j] })
+	// batch read-back: first collect the result of every Get (the slices are held, not copied),
+	// then compare them all — a message must stay readable while later messages are read
+	type res struct {
+		s   int64
+		got []byte
+		err error
+	}
+	var batch []res
 	for _, s := range seqs {
 		if s <= ack {
 			continue
@@ -393,6 +418,10 @@ func (r *run) check(after string) {
 			}()
 			got, err = r.q.Get(s)
 		}()
+		batch = append(batch, res{s, got, err})
+	}
+	for _, b := range batch {
+		s, got, err := b.s, b.got, b.err
 		if err == nil && bytes.Equal(got, r.want[s]) {
 			continue
 		}
@@ -423,6 +452,77 @@ func short(b []byte) string {
 	return hex.EncodeToString(b)
 }
 
+// ---- SetAppendedSeq
+
+// opSetApp: the explicit reset. Everything at or below s is acknowledged, everything above it is
+// discarded by definition: the oracle forgets all messages of the case.
+func (r *run) opSetApp(s int64) {
+	r.c.Guard(fmt.Sprintf("setapp %d", s), func() string {
+		r.q.SetAppendedSeq(s)
+		return "ok " + r.qstate()
+	})
+	r.want = map[int64][]byte{}
+	r.bulk = nil
+	r.unsynced = true
+	r.c.Branch("setapp")
+	if a, k := r.q.AppendedSeq(), r.q.AcknowledgedSeq(); a != s || k != s {
+		r.c.Fail("reset-did-not-set-sequences", fmt.Sprintf("SetAppendedSeq(%d): appended=%d ack=%d", s, a, k))
+	}
+}
+
+// touched records the highest index slot a Put may have written and clears the "cursor not
+// recomputed since the reset" state after a successful append.
+func (r *run) touched(ok bool) {
+	if r.q == nil {
+		return
+	}
+	if a := r.q.AppendedSeq() + 1; a > r.maxTouched {
+		r.maxTouched = a
+	}
+	if ok {
+		r.unsynced, r.idxMaybeDead = false, false
+	}
+}
+
+// rewound: NewQueue recomputed the cursor from the item at the reset target: it may have moved
+// backwards, so older items may point above it; only later appends are valid backward targets.
+func (r *run) rewound() {
+	if r.q == nil {
+		return
+	}
+	if r.unsynced {
+		r.epochLo = r.q.AppendedSeq() + 1
+	}
+	r.unsynced, r.idxMaybeDead = false, false
+}
+
+// resetTarget picks a SetAppendedSeq target inside the region the theorem covers (ResetOK):
+// forward onto a never-written slot (plain, last slot of an index page, first slot of one, two or
+// more index pages ahead), or backward onto a sequence appended since the cursor last rewound.
+func (r *run) resetTarget(rng *rand.Rand) (int64, bool) {
+	const n = int64(1024 * 256)
+	app := r.q.AppendedSeq()
+	_, _, ipg, _ := queue.VerifC05Cursor(r.q)
+	lo := r.maxTouched + 1
+	var t int64
+	switch k := rng.Intn(10); {
+	case k < 3 && !r.idxMaybeDead && app >= r.epochLo:
+		return r.epochLo + rng.Int63n(app-r.epochLo+1), true
+	case k < 5:
+		t = lo + rng.Int63n(50)
+	case k < 7:
+		t = (lo/n+1+rng.Int63n(3))*n - 1
+	case k < 9:
+		t = (lo/n + 1 + rng.Int63n(3)) * n
+	default:
+		t = lo + (2+rng.Int63n(2))*n + rng.Int63n(1000)
+	}
+	if r.idxMaybeDead && (t+1)/n <= ipg {
+		return 0, false
+	}
+	return t, true
+}
+
 // ---- Put under an AcquirePage fault, bulk Put
 
 // opPutFail: Put while the next AcquirePage on the data factory fails (fires only on a roll-over).
@@ -448,6 +548,7 @@ func (r *run) opPutFail(m msg) {
 			r.c.Fail("seq-not-dense", fmt.Sprintf("Put returned nil, appended went %d -> %d", before, seq))
 		}
 		r.want[seq] = m.data
+		r.touched(true)
 		r.c.Branch("put-ok-under-armed-fault")
 		return fmt.Sprintf("ok seq=%d %s", seq, r.curStr())
 	})
@@ -479,6 +580,7 @@ func (r *run) opPutN(n int, m msg, rng *rand.Rand) {
 			r.want[s] = m.data
 		}
 		r.bulk = append(r.bulk, bulk{before + 1, seq, m.data})
+		r.touched(n > 0)
 		r.c.Branch("put-bulk")
 		if n == 0 {
 			return "ok none"
@@ -654,6 +756,7 @@ func (r *run) opCAlloc(id int, m msg) {
 				r.c.Fail("seq-not-dense", fmt.Sprintf("Put returned nil, appended went %d -> %d", before, seq))
 			}
 			r.want[seq] = m.data
+			r.touched(true)
 			return fmt.Sprintf("ok seq=%d %s", seq, r.curStr())
 		}
 		r.c.Branch("put-is-three-steps")
@@ -707,6 +810,7 @@ func (r *run) opCPersist(id int) {
 			r.c.Fail("seq-not-dense", fmt.Sprintf("Put returned nil, appended went %d -> %d", before, seq))
 		}
 		r.want[seq] = t.data
+		r.touched(true)
 		for _, o := range r.ths {
 			if o.allocIdx < t.allocIdx {
 				r.everReversed = true
@@ -759,6 +863,7 @@ func (r *run) opCCrash() {
 		r.c.Fail("appended-moved-by-crash", fmt.Sprintf("appended %d before the crash, %d after NewQueue on the image", before, a))
 	}
 	r.c.Branch("crash-between-steps")
+	r.rewound()
 	if r.everReversed {
 		r.restartAfter = "crash"
 	}
@@ -801,14 +906,16 @@ func (a area) Run(c *core.Ctx) error {
 				r.gcOverlapCase(rng, true)
 			case i == 5:
 				r.boundaryCase(rng, 1, 0)
-			case c.Tier == "thorough" && i >= 6 && i <= 9:
+			case i == 6:
+				r.resetCase(rng)
+			case c.Tier == "thorough" && i >= 7 && i <= 10:
 				// one below / one above the index page boundary, the second boundary, GC overlap with pending messages
 				switch i {
-				case 6:
-					r.boundaryCase(rng, 1, -1)
 				case 7:
-					r.boundaryCase(rng, 1, 1)
+					r.boundaryCase(rng, 1, -1)
 				case 8:
+					r.boundaryCase(rng, 1, 1)
+				case 9:
 					r.boundaryCase(rng, 2, 0)
 				default:
 					r.gcOverlapCase(rng, false)
@@ -928,8 +1035,12 @@ func (r *run) seqCase(rng *rand.Rand) {
 	n := 4 + rng.Intn(30)
 	for j := 0; j < n && r.q != nil; j++ {
 		switch k := rng.Intn(100); {
-		case k < 36:
+		case k < 33:
 			r.opPut(randMsg(rng))
+		case k < 36:
+			if t, ok := r.resetTarget(rng); ok {
+				r.opSetApp(t)
+			}
 		case k < 40:
 			r.opPutFail(randMsg(rng))
 		case k < 58:
@@ -948,9 +1059,15 @@ func (r *run) seqCase(rng *rand.Rand) {
 	}
 	if r.q != nil {
 		r.opReopen()
-		for s := r.q.AcknowledgedSeq(); s <= r.q.AppendedSeq()+1; s++ {
-			r.opGet(s)
+		ack, app := r.q.AcknowledgedSeq(), r.q.AppendedSeq()
+		if app-ack <= 60 {
+			for s := ack; s <= app+1; s++ {
+				r.opGet(s)
+			}
+		} else {
+			r.readUnacked(rng)
 		}
+		r.twoReaders()
 	}
 }
 
@@ -1236,5 +1353,108 @@ func (r *run) indexPagesCase(rng *rand.Rand) {
 		a1 := ack + 1 + rng.Int63n(app-ack)
 		a2 := a1 + rng.Int63n(app-a1+1)
 		r.gcRounds(rng, []int64{a1, a2})
+	}
+}
+
+// resetCase: SetAppendedSeq onto the last slot of an index page, exactly onto a page boundary
+// several index pages ahead, backward onto an earlier append, and to -1 — each followed by
+// appends, reads, close/reopen or a crash image, and reads again.
+func (r *run) resetCase(rng *rand.Rand) {
+	r.c.Branch("case-resets")
+	const n = int64(1024 * 256)
+	r.opNew()
+	for j := 0; j < 3; j++ {
+		r.opPut(randMsg(rng))
+	}
+	r.opSetApp(n - 1) // next append is the first item of index page 1 (not created yet)
+	r.opGet(n - 1)
+	r.opPut(lit(randBytes(rng, 9)))
+	r.opGet(n)
+	r.opPut(randMsg(rng))
+	r.opReopen()
+	r.opGet(n)
+	r.opGet(n + 1)
+	k := 3 + rng.Int63n(3)
+	r.opSetApp(k * n) // exactly onto a boundary, two or more index pages ahead
+	r.opPut(lit(randBytes(rng, 7)))
+	m := randMsg(rng)
+	r.opCrashPut(rng.Intn(len(m.data)+6), m)
+	r.opGet(k*n + 1)
+	r.opPut(randMsg(rng))
+	r.opPut(randMsg(rng))
+	r.readUnacked(rng)
+	back := r.q.AppendedSeq() - 1
+	r.opSetApp(back) // backward: the message above is discarded by definition
+	r.opGet(back + 1)
+	r.opPut(lit(randBytes(rng, 5)))
+	r.opGet(back + 1)
+	r.opAck(back + 1)
+	r.opGC()
+	r.opPut(randMsg(rng))
+	r.opReopen()
+	r.readUnacked(rng)
+	r.opSetApp((k+2)*n + 17) // forward again, then straight into a restart before any append
+	r.opReopen()
+	r.opPut(lit(randBytes(rng, 11)))
+	r.opPut(randMsg(rng))
+	r.readUnacked(rng)
+	r.opReopen()
+	r.readUnacked(rng)
+	r.twoReaders()
+}
+
+// twoReaders: two goroutines read disjoint halves of the readable sequences at the same time and
+// compare what they got (oracle only; nothing is written to the protocol streams).
+func (r *run) twoReaders() {
+	if r.q == nil {
+		return
+	}
+	ack := r.q.AcknowledgedSeq()
+	var seqs []int64
+	for s := range r.want {
+		if s > ack && len(r.want[s]) <= 1<<16 {
+			seqs = append(seqs, s)
+		}
+	}
+	if len(seqs) < 2 {
+		return
+	}
+	sort.Slice(seqs, func(i, j int) bool { return seqs[i] < seqs[j] })
+	r.c.Branch("two-readers")
+	q := r.q
+	errs := make(chan string, 2)
+	reader := func(mine []int64) {
+		debug.SetPanicOnFault(true)
+		msg := ""
+		defer func() {
+			if p := recover(); p != nil {
+				msg = fmt.Sprintf("panic: %v", p)
+			}
+			errs <- msg
+		}()
+		for it := 0; it < 400 && msg == ""; it++ {
+			for _, s := range mine {
+				got, err := q.Get(s)
+				if err != nil || !bytes.Equal(got, r.want[s]) {
+					msg = fmt.Sprintf("sequence %d read concurrently with another reader: err=%v got %s want %s", s, err, short(got), short(r.want[s]))
+					break
+				}
+			}
+		}
+	}
+	var a, b []int64
+	for i, s := range seqs {
+		if i%2 == 0 {
+			a = append(a, s)
+		} else {
+			b = append(b, s)
+		}
+	}
+	go reader(a)
+	go reader(b)
+	for i := 0; i < 2; i++ {
+		if m := <-errs; m != "" {
+			r.c.Fail("returned-put-lost-or-altered", m)
+		}
 	}
 }
